@@ -348,4 +348,78 @@ theorem spray_silent (env : Env) (d : Desc) (b : Bundle) (n : Node)
   unfold innerSenders
   rcases ha with ha | ha <;> simp [ha, hs]
 
+
+/-! ## No endpoint is picked twice in one choice -/
+
+theorem filterCLAs_nodup : ∀ (sent : List Eid) (ps : List Peer), ((filterCLAs sent ps).1.map (·.eid)).Nodup
+  | sent, [] => by simp [filterCLAs]
+  | sent, q :: ps => by
+    simp only [filterCLAs]
+    split
+    · exact filterCLAs_nodup sent ps
+    · simp only [List.map_cons, List.nodup_cons]
+      refine ⟨?_, filterCLAs_nodup _ ps⟩
+      intro hmem
+      rcases List.mem_map.mp hmem with ⟨p, hp, hpe⟩
+      have := filterCLAs_fresh (sent ++ [q.eid]) ps p hp
+      rw [hpe] at this
+      simp at this
+
+theorem sprayPick_nodup : ∀ (m : SprayMeta) (ps : List Peer), ((sprayPick m ps).1.map (·.eid)).Nodup
+  | m, [] => by simp [sprayPick]
+  | m, q :: ps => by
+    simp only [sprayPick]
+    split
+    · simp
+    · split
+      · exact sprayPick_nodup m ps
+      · simp only [List.map_cons, List.nodup_cons]
+        refine ⟨?_, sprayPick_nodup _ ps⟩
+        intro hmem
+        rcases List.mem_map.mp hmem with ⟨p, hp, hpe⟩
+        have := sprayPick_fresh { sent := m.sent ++ [q.eid], copies := m.copies - 1 } ps p hp
+        simp only at this
+        rw [hpe] at this
+        simp at this
+
+/-- The peers one `SenderForBundle` picks have pairwise different endpoint IDs. -/
+theorem innerSenders_nodup (env : Env) (d : Desc) (b : Bundle) (n : Node) :
+    ((innerSenders env d b n).1.map (·.eid)).Nodup := by
+  unfold innerSenders
+  cases n.cfg.algo
+  · simp only
+    cases n.store.get d.key with
+    | none => simp
+    | some it => exact filterCLAs_nodup _ _
+  · simp only
+    cases lookupMeta n.spray d.key with
+    | none => simp
+    | some m =>
+      simp only
+      split
+      · simp
+      · exact sprayPick_nodup _ _
+  · simp only
+    cases lookupMeta n.spray d.key with
+    | none => simp
+    | some m =>
+      simp only
+      split
+      · simp
+      · cases (senders env n d.key).find? (fun p => !m.sent.contains p.eid) <;> simp
+  · simp only
+    cases n.store.get d.key with
+    | none => simp
+    | some it =>
+      simp only
+      split
+      · simp
+      · exact filterCLAs_nodup _ _
+  · simp only
+    split
+    · cases n.store.get d.key with
+      | none => simp
+      | some it => exact filterCLAs_nodup _ _
+    · cases (senders env n d.key).find? (fun p => env.cand p.eid b) <;> simp
+
 end Dtn7.Node
